@@ -18,8 +18,17 @@ Loops that call `sock.recv` are written with an explicit fuel argument; the
 public entry points pass `measure script + 1` (or `+ 2`), which `Proofs.lean` shows is
 always enough (the result is never `Res.fuel`).
 
-The wall-clock branch (`cur_timeout <= 0.0`) is not modelled separately: a
-timeout is whatever the script says, between any two recvs.
+The wall-clock branch (`cur_timeout <= 0.0`):
+  * receive side - the deadline check sits directly in front of `sock.recv` and raises the same
+    `socket.timeout` into the same handler, so one script event `Ev.timeout` stands for both "the
+    socket timed out" and "the deadline had passed when the loop came round" (the harness drives
+    both code paths with a scripted clock and compares them with this one model event);
+  * send side - the check sits *behind* `sock.send`, after `sbuf[0]` has been trimmed, and also runs
+    when everything has just been sent: that is a different program point, modelled by its own
+    event `SEv.clock`.
+Round 2 also models the argument resolution around the calls: `Max` / `Call` (maxsize omitted ->
+`self.maxsize`, `None` -> `_RECV_LARGE_MAXSIZE`, `setmaxsize`) and `NsSock` (NetstringSocket's
+`maxsize` and its cached prefix window `_msgsize_maxsize`: constructor, `setmaxsize`, `maxsize=` argument).
 Core Lean only.
 -/
 namespace C12
@@ -226,6 +235,78 @@ def runAttempts (cfg : Cfg) : List Op → St → List (Res × St) × St
     let (rs, st'') := runAttempts cfg ops st'
     ((r, st') :: rs, st'')
 
+/-! ## the public calls: how `maxsize` reaches an operation -/
+
+/-- the `maxsize=` argument of `recv_until` / `recv_close` -/
+inductive Max where
+  | unset              -- argument omitted: `self.maxsize`
+  | none               -- `None`: `_RECV_LARGE_MAXSIZE`
+  | some (n : Nat)
+deriving Repr, DecidableEq
+
+/-- `if maxsize is _UNSET: maxsize = self.maxsize`; `if maxsize is None: maxsize = _RECV_LARGE_MAXSIZE`.
+    `large` is the constant `_RECV_LARGE_MAXSIZE` (regenerated from the source, supplied by the driver). -/
+def Max.resolve (large selfMax : Nat) : Max → Nat
+  | .unset => selfMax
+  | .none => large
+  | .some n => n
+
+/-- a public receive-side call as the caller writes it -/
+inductive Call where
+  | recv (size : Nat)
+  | peek (size : Nat)
+  | recvSize (size : Nat)
+  | recvUntil (d : Bytes) (m : Max) (withDelim : Bool)
+  | recvClose (m : Max)
+  | setMaxsize (n : Nat)
+deriving Repr, DecidableEq
+
+/-- the operation a call performs while `self.maxsize = selfMax`; `none` for `setmaxsize`,
+    which touches neither the buffer nor the socket -/
+def Call.op (large selfMax : Nat) : Call → Option Op
+  | .recv n => some (.recv n)
+  | .peek n => some (.peek n)
+  | .recvSize n => some (.recvSize n)
+  | .recvUntil d m w => some (.recvUntil d (m.resolve large selfMax) w)
+  | .recvClose m => some (.recvClose (m.resolve large selfMax))
+  | .setMaxsize _ => none
+
+/-- `self.maxsize` after the call -/
+def Call.nextMax (selfMax : Nat) : Call → Nat
+  | .setMaxsize n => n
+  | _ => selfMax
+
+/-- every call but `recv` has a chunk-independent answer -/
+def Call.deterministic : Call → Bool
+  | .recv _ => false
+  | _ => true
+
+/-- one call, one attempt: result (`none` = `setmaxsize` returned None), new `self.maxsize`
+    (kept in `cfg.maxsize`; `_recvsize` is fixed by the constructor), new state -/
+def callAttempt (large : Nat) (cfg : Cfg) (c : Call) (st : St) : Option Res × Cfg × St :=
+  match c.op large cfg.maxsize with
+  | some op => (some (attempt cfg op st).1, cfg, (attempt cfg op st).2)
+  | none => (none, { cfg with maxsize := c.nextMax cfg.maxsize }, st)
+
+/-- a session of public calls, each retried after Timeout; `setmaxsize` contributes no result -/
+def runCalls (large : Nat) : Cfg → List Call → St → List Res × St
+  | _, [], st => ([], st)
+  | cfg, c :: cs, st =>
+    match c.op large cfg.maxsize with
+    | some op =>
+      let (r, st') := callRetry cfg op st
+      let (rs, st'') := runCalls large cfg cs st'
+      (r :: rs, st'')
+    | none => runCalls large { cfg with maxsize := c.nextMax cfg.maxsize } cs st
+
+/-- the operations a list of calls amounts to, every maxsize resolved (no socket involved) -/
+def resolveCalls (large : Nat) : Nat → List Call → List Op
+  | _, [] => []
+  | selfMax, c :: cs =>
+    match c.op large selfMax with
+    | some op => op :: resolveCalls large selfMax cs
+    | none => resolveCalls large (c.nextMax selfMax) cs
+
 /-! ## whole-stream specification (what the calls mean when everything has arrived) -/
 
 /-- `S` = every byte not yet handed to the caller.  Result and what remains. -/
@@ -284,6 +365,9 @@ def St.view (st : St) : Bytes := st.rbuf ++ pending st.script
 inductive SEv where
   | accept (k : Nat)       -- sock.send takes at most k bytes
   | timeout                -- sock.send raises socket.timeout
+  | clock                  -- the wall clock passes the deadline: the `cur_timeout <= 0.0` check that
+                           -- follows a `sock.send` fires (a `sock.send` that finds the deadline
+                           -- already passed times out as well)
 deriving Repr, DecidableEq
 
 structure SSt where
@@ -298,13 +382,31 @@ inductive SRes where
   | timeout
 deriving Repr, DecidableEq
 
-/-- the `while sbuf[0]:` loop; `buf` is `sbuf[0]` -/
+/-- `some rest` when the deadline check that follows a `sock.send` fires -/
+def popClock : List SEv → Option (List SEv)
+  | .clock :: r => some r
+  | _ => none
+
+/-- the `while sbuf[0]:` loop; `buf` is `sbuf[0]`.  After every `sock.send` the code trims `sbuf[0]`
+    and then (when a timeout is set) looks at the clock: if the deadline has passed it raises Timeout
+    with the trimmed buffer - even when that buffer is now empty. -/
 def sendLoop : List SEv → Bytes → Nat → Bytes → SRes × SSt
   | script, [], total, wire => (.sent total, ⟨[[]], wire, script⟩)
   | [], b :: buf, total, wire => (.sent (total + (b :: buf).length), ⟨[[]], wire ++ (b :: buf), []⟩)
   | .timeout :: r, b :: buf, _, wire => (.timeout, ⟨[b :: buf], wire, r⟩)
+  | .clock :: r, b :: buf, _, wire => (.timeout, ⟨[b :: buf], wire, r⟩)
   | .accept k :: r, b :: buf, total, wire =>
-    sendLoop r ((b :: buf).drop k) (total + min k (b :: buf).length) (wire ++ (b :: buf).take k)
+    match popClock r with
+    | some r' => (.timeout, ⟨[(b :: buf).drop k], wire ++ (b :: buf).take k, r'⟩)
+    | none =>
+      sendLoop r ((b :: buf).drop k) (total + min k (b :: buf).length) (wire ++ (b :: buf).take k)
+
+/-- how many fault events (socket timeouts and deadline expiries) a send script still holds -/
+def nSF : List SEv → Nat
+  | [] => 0
+  | .accept _ :: r => nSF r
+  | .timeout :: r => nSF r + 1
+  | .clock :: r => nSF r + 1
 
 /-- the `if s` of `[s for s in sbuf if s]` -/
 def isNonEmpty : Bytes → Bool
@@ -372,11 +474,50 @@ def digits (n : Nat) : Bytes := digitsAux n n []
 def isDigit (b : Nat) : Bool := 48 ≤ b && b ≤ 57
 
 /-- `int(prefix)` restricted to the inputs the model covers: a non-empty run of ASCII digits
-    is its decimal value, anything else is a ValueError (`none`).  (Python also accepts
-    surrounding whitespace, a sign and `_` separators; streams containing those bytes are outside
-    the model and the harness does not send them to the driver.) -/
+    is its decimal value, anything else `none`.  This is the *strict* netstring size syntax; what
+    read_ns really calls is Python's lenient `int()`, modelled by `parsePyInt` / `parseSize` below
+    (they agree on strict input: `parseSize_of_parseNat`). -/
 def parseNat (bs : Bytes) : Option Nat :=
   if bs ≠ [] ∧ bs.all isDigit then some (bs.foldl (fun acc b => acc * 10 + (b - 48)) 0) else none
+
+/-! `int(size_prefix)` as Python really does it for a bytes object (round 2): ASCII whitespace around
+    the number is skipped, one sign is allowed, digits may be grouped by single underscores. -/
+
+/-- `Py_ISSPACE`: space, \t \n \v \f \r -/
+def isSpace (b : Nat) : Bool := b == 32 || (9 ≤ b && b ≤ 13)
+
+def stripL : Bytes → Bytes
+  | [] => []
+  | b :: bs => if isSpace b then stripL bs else b :: bs
+
+def stripR (bs : Bytes) : Bytes := (stripL bs.reverse).reverse
+
+inductive Prev where
+  | start | digit | under
+deriving Repr, DecidableEq
+
+/-- digits, single underscores only between digits; the value so far is `acc` -/
+def parseBody (acc : Nat) : Prev → Bytes → Option Nat
+  | p, [] => if p = .digit then some acc else none
+  | p, b :: bs =>
+    if isDigit b then parseBody (acc * 10 + (b - 48)) .digit bs
+    else if b = 95 ∧ p = .digit then parseBody acc .under bs
+    else none
+
+/-- Python's `int(bs)` for a bytes object, base 10; `none` = ValueError -/
+def parsePyInt (bs : Bytes) : Option Int :=
+  match stripR (stripL bs) with
+  | [] => none
+  | b :: r =>
+    if b = 43 then (parseBody 0 .start r).map Int.ofNat
+    else if b = 45 then (parseBody 0 .start r).map (fun n => - Int.ofNat n)
+    else (parseBody 0 .start (b :: r)).map Int.ofNat
+
+/-- the size read_ns works with.  A negative size `s` (e.g. the prefix `-5`) passes the
+    `size > maxsize` test like 0 does, and `recv_size(s)` behaves exactly like `recv_size(0)`
+    (`total_bytes >= s` holds at once and `nxt[:-extra]` is empty, `nxt[-extra:]` is all of `nxt`),
+    so the model clamps it to 0. -/
+def parseSize (bs : Bytes) : Option Nat := (parsePyInt bs).map Int.toNat
 
 def colon : Nat := 58
 def comma : Nat := 44
@@ -404,7 +545,7 @@ def NsRes.ofRes : Res → NsRes
 def readNs (cfg : Cfg) (maxsize : Nat) (st : St) : NsRes × St :=
   match recvUntil cfg [colon] ((digits maxsize).length + 1) false st with
   | (.ok prefix_, st1) =>
-    match parseNat prefix_ with
+    match parseSize prefix_ with
     | none => (.invalidSize, st1)
     | some size =>
       if size > maxsize then (.nsTooLong, st1)
@@ -415,6 +556,51 @@ def readNs (cfg : Cfg) (maxsize : Nat) (st : St) : NsRes × St :=
           | (r, st3) => (NsRes.ofRes r, st3)
         | (r, st2) => (NsRes.ofRes r, st2)
   | (r, st1) => (NsRes.ofRes r, st1)
+
+/-- `read_ns` with the prefix window as a separate parameter (the code keeps it in a cached
+    attribute); `readNs` is the instance `window = len(str(maxsize)) + 1` -/
+def readNsWith (cfg : Cfg) (maxsize window : Nat) (st : St) : NsRes × St :=
+  match recvUntil cfg [colon] window false st with
+  | (.ok prefix_, st1) =>
+    match parseSize prefix_ with
+    | none => (.invalidSize, st1)
+    | some size =>
+      if size > maxsize then (.nsTooLong, st1)
+      else match recvSize cfg size st1 with
+        | (.ok payload, st2) =>
+          match recv cfg 1 st2 with
+          | (.ok c, st3) => if c = [comma] then (.ok payload, st3) else (.protocolError, st3)
+          | (r, st3) => (NsRes.ofRes r, st3)
+        | (r, st2) => (NsRes.ofRes r, st2)
+  | (r, st1) => (NsRes.ofRes r, st1)
+
+/-- `_calc_msgsize_maxsize` -/
+def calcWindow (maxsize : Nat) : Nat := (digits maxsize).length + 1
+
+/-- the NetstringSocket attributes that matter: `maxsize` and the cached `_msgsize_maxsize` -/
+structure NsSock where
+  maxsize : Nat
+  window : Nat
+deriving Repr, DecidableEq
+
+/-- `NetstringSocket.__init__` (computes the window inline) -/
+def NsSock.init (maxsize : Nat) : NsSock := ⟨maxsize, (digits maxsize).length + 1⟩
+
+/-- `NetstringSocket.setmaxsize` -/
+def NsSock.setMaxsize (_ns : NsSock) (maxsize : Nat) : NsSock := ⟨maxsize, calcWindow maxsize⟩
+
+/-- `read_ns(maxsize=arg)`: the cached window when the argument is omitted, a fresh one otherwise -/
+def NsSock.readNs (cfg : Cfg) (ns : NsSock) (arg : Option Nat) (st : St) : NsRes × St :=
+  match arg with
+  | none => readNsWith cfg ns.maxsize ns.window st
+  | some m => readNsWith cfg m (calcWindow m) st
+
+def NsSock.readNsMany (cfg : Cfg) (ns : NsSock) (arg : Option Nat) : Nat → St → List NsRes × St
+  | 0, st => ([], st)
+  | k + 1, st =>
+    let (r, st') := ns.readNs cfg arg st
+    let (rs, st'') := NsSock.readNsMany cfg ns arg k st'
+    (r :: rs, st'')
 
 def readNsMany (cfg : Cfg) (maxsize : Nat) : Nat → St → List NsRes × St
   | 0, st => ([], st)
